@@ -250,6 +250,16 @@ pub fn chain_history(out: &mut crate::Out, tag: &str, seed: u64, net: NetID, blo
             let l: Vec<Transaction> = set.iter().cloned().collect();
             let hh = honest_header(&par, &l, blk.proposer_action);
             d.w.block(parent, &Block { header: blk.header, transactions: set, proposer_action: blk.proposer_action }, 0, extra("tx changed in its signatures only", &hh, None));
+            // the same transaction twice, differing in signatures only (same hash_nosigs): consumes its inputs twice
+            for _ in 0..6 {
+                let mut t2 = t.clone();
+                t2.sigs.push(vec![9u8; 2].into());
+                let mut set: HashSet<Transaction> = blk.transactions.iter().cloned().collect();
+                set.insert(t2);
+                let l: Vec<Transaction> = set.iter().cloned().collect();
+                let hh = honest_header(&par, &l, blk.proposer_action);
+                d.w.block(parent, &Block { header: blk.header, transactions: set, proposer_action: blk.proposer_action }, 0, extra("tx duplicated with different signatures", &hh, None));
+            }
             let mut t3 = t.clone();
             t3.data = vec![0x55].into();
             let mut set = blk.transactions.clone();
